@@ -7,6 +7,8 @@ def run(prop, reg, tier, seed, workdir, replay, C):
         return run_hub_engine(prop, reg, tier, seed, workdir, replay, C)
     if eng == "conn":
         return run_conn_engine(prop, reg, tier, seed, workdir, replay, C)
+    if eng == "evm":
+        return run_evm_engine(prop, reg, tier, seed, workdir, replay, C)
     if eng == "none":
         return {"evaluations": 0, "distinct_nontrivial": 0, "rule": "no harness for this property", "samples": []}
     raise SystemExit("unknown engine " + eng)
@@ -107,4 +109,47 @@ def run_conn_engine(prop, reg, tier, seed, workdir, replay, C):
                      "restart positions (every commit of a scan can be the persisted cursor) and acknowledged nonces generated from VERIF_SEED; "
                      "the real GetLatestMinterBlockAndNonce runs against a scripted node with every Commit captured; compared with the Lean model; "
                      "distinct_nontrivial = distinct (op, outcome) classes (at least the number of histories with a committing scan)")
+    return total
+
+
+def run_evm_engine(prop, reg, tier, seed, workdir, replay, C):
+    total = {"histories": 0, "evaluations": 0, "stats": {}, "violations": [], "diffs": 0, "first_diff": None, "samples": []}
+    runs = reg.get(tier, reg.get("quick", []))
+    if replay:
+        # an EVM history is replayed by regenerating it from its seed (recorded in the replay file)
+        j = json.load(open(replay)) if replay.endswith(".json") else {}
+        runs = [{"histories": 1, "ops": j.get("ops_per_history", 30), "seed": j.get("seed", seed)}]
+    for i, run in enumerate(runs):
+        d = os.path.join(workdir, f"run{i}")
+        os.makedirs(d, exist_ok=True)
+        sd = run.get("seed", seed + i * 7919)
+        rc, o = C.sh([os.path.join(C.BUILD, "evmharness"), "gen", "--seed", str(sd), "--histories", str(run["histories"]), "--ops", str(run["ops"]), "--out", d], timeout=3000)
+        if rc != 0:
+            total["error"] = "evmharness failed: " + o[-2000:]
+            continue
+        ops = open(os.path.join(d, "ops.txt")).read()
+        rc, mo = C.sh([os.path.join(C.LEAN, ".lake/build/bin/evmdriver")], inp=ops, timeout=3000)
+        impl = open(os.path.join(d, "impl.txt")).read().splitlines()
+        model = mo.splitlines()
+        opl = ops.splitlines()
+        r = json.load(open(os.path.join(d, "result.json")))
+        first, nd = None, 0
+        for k, line in enumerate(opl):
+            a = impl[k] if k < len(impl) else "<none>"
+            b = model[k] if k < len(model) else "<none>"
+            if a != b:
+                nd += 1
+                if first is None:
+                    j = k
+                    while j > 0 and opl[j] != "e_reset":
+                        j -= 1
+                    first = {"line": k, "op": line, "impl": a, "model": b, "ops": opl[j:k + 1]}
+        r["diffs"], r["first_diff"] = nd, first
+        merge(total, r)
+        total["samples"].append([l[:300] for l in opl[:12]])
+    st = total["stats"]
+    total["distinct_nontrivial"] = max(len(st), min(total["histories"], st.get("op:e_update:ok", 0) + st.get("op:e_batch:ok", 0)))
+    total["rule"] = ("relayer histories generated from VERIF_SEED: signer-set updates and batches built from the hub's own types, digests (GetCheckpoint) and signatures "
+                     "(NewEthereumSignature), submitted with random subsets of confirmations, stale/ahead nonces, timeouts, foreign keys and wrong digests to the compiled Hub2 "
+                     "contract on go-ethereum's simulated backend; accept/reject and contract state compared with the Lean contract model; distinct_nontrivial = distinct (op, outcome) classes")
     return total
